@@ -69,14 +69,26 @@ extern "C" void h_c09_map(unsigned long spherical_cs, unsigned long L, unsigned 
 }
 
 // a world without cross section refuses 2D queries
-extern "C" void h_c09_refuse(void)
+extern "C" void h_c09_refuse(unsigned long which)
 {
   World *w = make_world(0);
   w->dim = 3;
   new (&w->cross_section) std::vector<Point<2>>();
   const std::array<double,2> p2 = {{sym_f64("x"), sym_f64("z")}};
   bool threw = false;
-  try { (void) w->properties(p2, sym_f64("depth"), {{{1,0,0}}}); }
+  const double depth = sym_f64("depth");
+  try
+    {
+      // every 2D entry point of the library interface (the wrappers forward to these)
+      switch (which)
+        {
+          case 0: (void) w->properties(p2, depth, {{{1,0,0}}}); break;
+          case 1: (void) w->temperature(p2, depth); break;
+          case 2: (void) w->temperature(p2, depth, sym_f64("gravity")); break;
+          case 3: (void) w->composition(p2, depth, sym_u32("composition")); break;
+          default: (void) w->grains(p2, depth, sym_u32("composition"), 1); break;
+        }
+    }
   catch (...) { threw = true; }
   sym_assert(threw && seen.calls == 0, "2D query without cross section throws and never reaches the 3D query");
   sym_reach("end");
